@@ -88,6 +88,8 @@ def make_allowed_callable(rec_getter):
             return True
         if getattr(o, '_sim_kind', None) == 'lambda':
             return True
+        if M.program_lambdas.get(id(o)) is o:
+            return True         # the result of a LambdaOp node, however the package represents it
         if str(getattr(o, '_sim_kind', '')).startswith('host:re'):
             return True         # a function the host itself bound in names
         return False
